@@ -1,20 +1,955 @@
-From Coq Require Import List ZArith Bool NArith Lia.
+(** C34 — proofs about the bitswap message model [model/M_C34.v]. *)
+From Coq Require Import List ZArith Bool NArith Lia Permutation.
 From V Require Import lib.Verdict model.M_C34.
 Import ListNotations.
 Open Scope Z_scope.
 
-Ltac zb :=
-  repeat match goal with
-  | |- context [?a =? ?b] => let E := fresh "E" in destruct (a =? b) eqn:E
-  end;
-  repeat match goal with
-  | H : (_ =? _) = true |- _ => apply Z.eqb_eq in H
-  | H : (_ =? _) = false |- _ => apply Z.eqb_neq in H
+(** ---------- byte strings ---------- *)
+Lemma bytes_eqb_eq : forall a b, bytes_eqb a b = true <-> a = b.
+Proof.
+  induction a as [|x a IH]; destruct b as [|y b]; cbn [bytes_eqb]; split; intro HH;
+    try reflexivity; try discriminate.
+  - apply andb_true_iff in HH. destruct HH as [Hx Hr]. apply Z.eqb_eq in Hx. apply IH in Hr. congruence.
+  - inversion HH; subst. apply andb_true_iff. split; [apply Z.eqb_refl | apply IH; reflexivity].
+Qed.
+
+Lemma bytes_eqb_refl : forall a, bytes_eqb a a = true.
+Proof. intro a. apply bytes_eqb_eq. reflexivity. Qed.
+
+Lemma bytes_eqb_neq : forall a b, bytes_eqb a b = false <-> a <> b.
+Proof.
+  intros a b. split.
+  - intros HF HE. apply bytes_eqb_eq in HE. congruence.
+  - intro HN. destruct (bytes_eqb a b) eqn:E; [apply bytes_eqb_eq in E; contradiction | reflexivity].
+Qed.
+
+Ltac beq k k' E := destruct (bytes_eqb k k') eqn:E;
+  [apply bytes_eqb_eq in E | apply bytes_eqb_neq in E].
+
+(** ---------- association lists ---------- *)
+Section ALP.
+  Context {V : Type}.
+  Implicit Types (l : list (bytes * V)) (k : bytes) (v : V).
+
+  Lemma aget_aset_same : forall l k v, aget k (aset k v l) = Some v.
+  Proof.
+    induction l as [|[k' v'] r IH]; intros k v; cbn [aset aget].
+    - rewrite bytes_eqb_refl. reflexivity.
+    - beq k k' E; cbn [aget].
+      + rewrite bytes_eqb_refl. reflexivity.
+      + apply bytes_eqb_neq in E. rewrite E. apply IH.
+  Qed.
+
+  Lemma aget_aset_other : forall l k k' v, k <> k' -> aget k' (aset k v l) = aget k' l.
+  Proof.
+    induction l as [|[k0 v0] r IH]; intros k k' v HN; cbn [aset aget].
+    - assert (E : bytes_eqb k' k = false) by (apply bytes_eqb_neq; congruence). rewrite E. reflexivity.
+    - beq k k0 E; cbn [aget].
+      + subst k0. assert (E2 : bytes_eqb k' k = false) by (apply bytes_eqb_neq; congruence).
+        rewrite E2. reflexivity.
+      + destruct (bytes_eqb k' k0); [reflexivity | apply IH; assumption].
+  Qed.
+
+  Lemma aget_adel_same : forall l k, aget k (adel k l) = None.
+  Proof.
+    induction l as [|[k0 v0] r IH]; intro k; cbn [adel aget]; [reflexivity|].
+    destruct (bytes_eqb k k0) eqn:E; [apply IH|]. cbn [aget]. rewrite E. apply IH.
+  Qed.
+
+  Lemma aget_adel_other : forall l k k', k <> k' -> aget k' (adel k l) = aget k' l.
+  Proof.
+    induction l as [|[k0 v0] r IH]; intros k k' HN; cbn [adel aget]; [reflexivity|].
+    beq k k0 E.
+    - subst k0. assert (E2 : bytes_eqb k' k = false) by (apply bytes_eqb_neq; congruence).
+      rewrite E2. apply IH; assumption.
+    - cbn [aget]. destruct (bytes_eqb k' k0); [reflexivity | apply IH; assumption].
+  Qed.
+
+  Lemma aget_none_notin : forall l k, aget k l = None <-> ~ In k (map fst l).
+  Proof.
+    induction l as [|[k0 v0] r IH]; intro k; cbn [aget map fst In].
+    - split; [intros _ []| reflexivity].
+    - beq k k0 E.
+      + subst. split; [discriminate | intro HH; exfalso; apply HH; left; reflexivity].
+      + rewrite IH. split; [intros HH [HE|HI]; [congruence | contradiction] | intros HH HI; apply HH; right; assumption].
+  Qed.
+
+  Lemma aget_some_in : forall l k v, aget k l = Some v -> In (k, v) l.
+  Proof.
+    induction l as [|[k0 v0] r IH]; intros k v; cbn [aget In]; [discriminate|].
+    beq k k0 E.
+    - intro HH. inversion HH; subst. left; reflexivity.
+    - intro HH. right. apply IH; assumption.
+  Qed.
+
+  Lemma in_aget_some : forall l k v, NoDup (map fst l) -> In (k, v) l -> aget k l = Some v.
+  Proof.
+    induction l as [|[k0 v0] r IH]; intros k v ND HI; cbn [aget]; [destruct HI|].
+    cbn [map fst] in ND. inversion ND as [|? ? HNI ND']; subst.
+    destruct HI as [HE|HI].
+    - inversion HE; subst. rewrite bytes_eqb_refl. reflexivity.
+    - beq k k0 E.
+      + subst k0. exfalso. apply HNI. apply in_map_iff. exists (k, v). split; [reflexivity | assumption].
+      + apply IH; assumption.
+  Qed.
+
+  Lemma aget_perm : forall l l' k, NoDup (map fst l) -> Permutation l l' -> aget k l = aget k l'.
+  Proof.
+    intros l l' k ND HP.
+    assert (ND' : NoDup (map fst l')) by (eapply Permutation_NoDup; [apply Permutation_map; exact HP | exact ND]).
+    destruct (aget k l) as [v|] eqn:E1.
+    - symmetry. apply in_aget_some; [exact ND'|]. eapply Permutation_in; [exact HP|]. apply aget_some_in; exact E1.
+    - destruct (aget k l') as [v'|] eqn:E2; [|reflexivity].
+      apply aget_some_in in E2. apply Permutation_sym in HP. eapply Permutation_in in E2; [|exact HP].
+      apply in_aget_some in E2; [congruence | exact ND].
+  Qed.
+
+  Lemma aset_absent : forall l k v, aget k l = None -> aset k v l = l ++ [(k, v)].
+  Proof.
+    induction l as [|[k0 v0] r IH]; intros k v; cbn [aget aset app]; [reflexivity|].
+    destruct (bytes_eqb k k0); [discriminate|]. intro HH. rewrite IH by assumption. reflexivity.
+  Qed.
+
+  Lemma amem_true : forall l k, amem k l = true <-> aget k l <> None.
+  Proof. intros l k. unfold amem. destruct (aget k l); split; congruence. Qed.
+  Lemma amem_false : forall l k, amem k l = false <-> aget k l = None.
+  Proof. intros l k. unfold amem. destruct (aget k l); split; congruence. Qed.
+
+  Lemma nodupb_NoDup : forall l, nodupb l = true <-> NoDup (map fst l).
+  Proof.
+    induction l as [|[k0 v0] r IH]; cbn [nodupb map fst].
+    - split; [constructor | reflexivity].
+    - rewrite andb_true_iff, negb_true_iff, amem_false, aget_none_notin, IH. split.
+      + intros [HA HB]. constructor; assumption.
+      + intro HH. inversion HH; subst. split; assumption.
+  Qed.
+
+  Lemma in_aset : forall l k v x, In x (aset k v l) -> x = (k, v) \/ In x l.
+  Proof.
+    induction l as [|[k0 v0] r IH]; intros k v x; cbn [aset In].
+    - intros [HE|[]]. left; congruence.
+    - destruct (bytes_eqb k k0); cbn [In].
+      + intros [HE|HI]; [left; congruence | right; right; assumption].
+      + intros [HE|HI]; [right; left; assumption|]. apply IH in HI. destruct HI; [left | right; right]; assumption.
+  Qed.
+
+  Lemma aget_aset_mono : forall l k v k', aget k' l <> None -> aget k' (aset k v l) <> None.
+  Proof.
+    intros l k v k' HH. beq k k' E.
+    - subst. rewrite aget_aset_same. discriminate.
+    - rewrite aget_aset_other by assumption. assumption.
+  Qed.
+End ALP.
+
+(** ---------- varints ---------- *)
+Lemma uvf_bound : forall fuel first buf v r,
+  uvf fuel first buf = Some (v, r) -> 0 <= v < 128 ^ Z.of_nat fuel.
+Proof.
+  induction fuel as [|f IH]; intros first buf v r; cbn [uvf]; [discriminate|].
+  destruct buf as [|b rest]; [discriminate|].
+  destruct ((b <? 0) || (255 <? b)) eqn:Erange; [discriminate|].
+  apply orb_false_iff in Erange. destruct Erange as [E0 E255].
+  apply Z.ltb_ge in E0. apply Z.ltb_ge in E255.
+  replace (Z.of_nat (S f)) with (Z.of_nat f + 1) by lia.
+  rewrite Z.pow_add_r by lia. change (128 ^ 1) with 128.
+  assert (HP : 0 < 128 ^ Z.of_nat f) by (apply Z.pow_pos_nonneg; lia).
+  remember (128 ^ Z.of_nat f) as P eqn:EP.
+  destruct (b <? 128) eqn:E128.
+  - apply Z.ltb_lt in E128. destruct ((b =? 0) && negb first); [discriminate|].
+    intro HH. assert (Hv : v = b) by congruence. lia.
+  - apply Z.ltb_ge in E128.
+    destruct (uvf f false rest) as [[v' r']|] eqn:Erec; [|discriminate].
+    intro HH. assert (Hv : v = b - 128 + 128 * v') by congruence. apply IH in Erec. lia.
+Qed.
+
+Lemma uvarint_bound : forall buf v r, uvarint buf = Some (v, r) -> 0 <= v < 2 ^ 63.
+Proof.
+  intros buf v r HH. apply uvf_bound in HH. change (128 ^ Z.of_nat 9) with (2 ^ 63) in HH. exact HH.
+Qed.
+
+(** PutUvarint then FromUvarint: any value below 128^fuel, any continuation *)
+Lemma uvf_putuvf : forall f pf first x rest,
+  0 <= x < 128 ^ Z.of_nat (S f) -> (S f <= pf)%nat -> (first = false -> 0 < x) ->
+  uvf (S f) first (putuvf pf x ++ rest) = Some (x, rest).
+Proof.
+  induction f as [|f IH]; intros pf first x rest Hx Hpf Hfirst;
+    (destruct pf as [|pf']; [lia|]); cbn [putuvf].
+  - change (128 ^ Z.of_nat 1) with 128 in Hx.
+    assert (E : x <? 128 = true) by (apply Z.ltb_lt; lia). rewrite E. cbn [app uvf].
+    assert (E0 : (x <? 0) || (255 <? x) = false)
+      by (apply orb_false_iff; split; apply Z.ltb_ge; lia).
+    rewrite E0, E.
+    destruct first; cbn [negb]; [rewrite andb_false_r; reflexivity|].
+    specialize (Hfirst eq_refl). assert (E1 : x =? 0 = false) by (apply Z.eqb_neq; lia).
+    rewrite E1. reflexivity.
+  - destruct (x <? 128) eqn:E.
+    + apply Z.ltb_lt in E. cbn [app uvf].
+      assert (E0 : (x <? 0) || (255 <? x) = false)
+        by (apply orb_false_iff; split; apply Z.ltb_ge; lia).
+      rewrite E0. assert (E' : x <? 128 = true) by (apply Z.ltb_lt; lia). rewrite E'.
+      destruct first; cbn [negb]; [rewrite andb_false_r; reflexivity|].
+      specialize (Hfirst eq_refl). assert (E1 : x =? 0 = false) by (apply Z.eqb_neq; lia).
+      rewrite E1. reflexivity.
+    + apply Z.ltb_ge in E.
+      replace (Z.of_nat (S (S f))) with (Z.of_nat (S f) + 1) in Hx by lia.
+      rewrite Z.pow_add_r in Hx by lia. change (128 ^ 1) with 128 in Hx.
+      assert (Hm : 0 <= x mod 128 < 128) by (apply Z.mod_pos_bound; lia).
+      assert (Hd : x = 128 * (x / 128) + x mod 128) by (apply Z.div_mod; lia).
+      assert (Hq : 0 < x / 128 < 128 ^ Z.of_nat (S f)) by nia.
+      change ((x mod 128 + 128 :: putuvf pf' (x / 128)) ++ rest)
+        with (x mod 128 + 128 :: (putuvf pf' (x / 128) ++ rest)).
+      remember (S f) as f1 eqn:Ef1. cbn [uvf].
+      assert (E0 : (x mod 128 + 128 <? 0) || (255 <? x mod 128 + 128) = false)
+        by (apply orb_false_iff; split; apply Z.ltb_ge; lia).
+      rewrite E0. assert (E' : x mod 128 + 128 <? 128 = false) by (apply Z.ltb_ge; lia). rewrite E'.
+      subst f1. rewrite IH; [| lia | lia | intros _; lia].
+      f_equal. f_equal. lia.
+Qed.
+
+Lemma uvarint_putuv : forall x rest, 0 <= x < 2 ^ 63 -> uvarint (putuv x ++ rest) = Some (x, rest).
+Proof.
+  intros x rest Hx. unfold uvarint, putuv. apply uvf_putuvf.
+  - change (128 ^ Z.of_nat 9) with (2 ^ 63). exact Hx.
+  - lia.
+  - discriminate.
+Qed.
+
+(** ---------- go-cid ---------- *)
+Lemma cast_some : forall b c, cast b = Some c -> c = b.
+Proof.
+  intros b c. unfold cast.
+  destruct (is_v0_head b).
+  - destruct (len b =? 34); congruence.
+  - destruct (uvarint b) as [[vers r1]|]; [|discriminate].
+    destruct (negb (vers =? 1)); [discriminate|].
+    destruct (uvarint r1) as [[cd r2]|]; [|discriminate].
+    destruct (mh_from r2) as [n|]; [|discriminate].
+    destruct (len b - len r2 + n =? len b); congruence.
+Qed.
+
+Lemma validb_cast : forall c, validb c = true -> c <> [] /\ cast c = Some c.
+Proof.
+  intros c. unfold validb. destruct c as [|x c']; [discriminate|].
+  destruct (cast (x :: c')) as [c2|] eqn:E; [|discriminate].
+  intros _. split; [discriminate|]. apply cast_some in E. congruence.
+Qed.
+
+Definition prefix_ok (p : prefix) : Prop :=
+  let '(v, cd, t, l) := p in
+  0 <= v < 2 ^ 63 /\ 0 <= cd < 2 ^ 63 /\ 0 <= t < 2 ^ 63 /\ 0 <= l < 2 ^ 63.
+
+Lemma prefix_of_ok : forall c, prefix_ok (prefix_of c).
+Proof.
+  intro c. unfold prefix_of. destruct (is_v0 c); [unfold v0prefix, prefix_ok; lia|].
+  destruct (uvarint c) as [[v r1]|] eqn:E1; [|unfold prefix_ok; lia].
+  apply uvarint_bound in E1.
+  destruct (uvarint r1) as [[cd r2]|] eqn:E2; [|unfold prefix_ok; lia].
+  apply uvarint_bound in E2.
+  destruct (uvarint r2) as [[t r3]|] eqn:E3; [|unfold prefix_ok; lia].
+  apply uvarint_bound in E3.
+  destruct (uvarint r3) as [[l r4]|] eqn:E4; [|unfold prefix_ok; lia].
+  apply uvarint_bound in E4. unfold prefix_ok. lia.
+Qed.
+
+(** PrefixFromBytes (Prefix.Bytes p) = p *)
+Lemma prefix_roundtrip : forall p, prefix_ok p -> prefix_from_bytes (prefix_bytes p) = Some p.
+Proof.
+  intros [[[v cd] t] l] (Hv & Hcd & Ht & Hl). unfold prefix_from_bytes, prefix_bytes.
+  rewrite uvarint_putuv by exact Hv. rewrite uvarint_putuv by exact Hcd.
+  rewrite uvarint_putuv by exact Ht.
+  rewrite <- (app_nil_r (putuv l)). rewrite uvarint_putuv by exact Hl. reflexivity.
+Qed.
+
+(** ---------- unfolding lemmas for the three decoding loops ---------- *)
+Section Dec.
+  Variable H : prefix -> bytes -> option cid.
+  Variable H0 : bytes -> cid.
+
+  Lemma pb_entries_cons : forall e r wl,
+    pb_entries (e :: r) wl =
+    if validb (pe_block e)
+    then pb_entries r (add_entry (pe_block e) (pe_prio e) (pe_cancel e) (pe_wt e) (pe_sdh e) wl)
+    else None.
+  Proof.
+    intros e r wl. cbn [pb_entries]. unfold validb.
+    destruct (pe_block e) as [|x b'] eqn:Eb; [reflexivity|].
+    destruct (cast (x :: b')) as [c|] eqn:Ec; [|reflexivity].
+    apply cast_some in Ec. subst c. reflexivity.
+  Qed.
+
+  Lemma pb_presences_cons : forall cb t r m,
+    pb_presences ((cb, t) :: r) m =
+    if validb cb then pb_presences r (add_presence cb t m) else None.
+  Proof.
+    intros cb t r m. cbn [pb_presences]. unfold validb.
+    destruct cb as [|x b']; [reflexivity|].
+    destruct (cast (x :: b')) as [c|] eqn:Ec; [|reflexivity].
+    apply cast_some in Ec. subst c. reflexivity.
+  Qed.
+
+  Definition of_pb (e : pbentry) : cid * ent :=
+    (pe_block e, mkent (pe_prio e) (pe_wt e) (pe_cancel e) (pe_sdh e)).
+
+  Lemma of_pb_to_pb : forall ce, of_pb (ent_to_pb ce) = ce.
+  Proof. intros [c [p w cn s]]. reflexivity. Qed.
+
+  (** fresh keys are appended in wire order *)
+  Lemma pb_entries_fresh : forall es acc,
+    NoDup (map fst acc ++ map pe_block es) ->
+    (forall e, In e es -> validb (pe_block e) = true) ->
+    pb_entries es acc = Some (acc ++ map of_pb es).
+  Proof.
+    induction es as [|e r IH]; intros acc ND HV.
+    - cbn [pb_entries map]. rewrite app_nil_r. reflexivity.
+    - rewrite pb_entries_cons. rewrite (HV e (or_introl eq_refl)).
+      cbn [map] in ND.
+      assert (Hnone : aget (pe_block e) acc = None).
+      { apply aget_none_notin. apply NoDup_remove_2 in ND. intro HI. apply ND. apply in_or_app. left. exact HI. }
+      unfold add_entry. rewrite Hnone. rewrite aset_absent by exact Hnone.
+      rewrite IH.
+      + rewrite <- app_assoc. reflexivity.
+      + rewrite map_app, <- app_assoc. exact ND.
+      + intros e' HI. apply HV. right. exact HI.
+  Qed.
+
+  Definition pay (cd : cid * bytes) : bytes * bytes := (prefix_bytes (prefix_of (fst cd)), snd cd).
+
+  Lemma pb_payloads_fresh : forall bs m,
+    m_pres m = [] ->
+    NoDup (map fst (m_blocks m) ++ map fst bs) ->
+    (forall c d, In (c, d) bs -> H (prefix_of c) d = Some c) ->
+    pb_payloads H (map pay bs) m = Some (mkmsg (m_full m) (m_wl m) (m_blocks m ++ bs) [] (m_pending m)).
+  Proof.
+    induction bs as [|[c d] r IH]; intros m HP ND HH.
+    - cbn [map pb_payloads]. rewrite app_nil_r. destruct m; cbn in *. subst. reflexivity.
+    - cbn [map pb_payloads pay fst snd].
+      rewrite prefix_roundtrip by apply prefix_of_ok.
+      rewrite (HH c d (or_introl eq_refl)).
+      cbn [map fst] in ND.
+      assert (Hnone : aget c (m_blocks m) = None).
+      { apply aget_none_notin. apply NoDup_remove_2 in ND. intro HI. apply ND. apply in_or_app. left. exact HI. }
+      rewrite IH.
+      + unfold add_block; cbn [m_full m_wl m_blocks m_pres m_pending].
+        rewrite aset_absent by exact Hnone. rewrite <- app_assoc. reflexivity.
+      + unfold add_block; cbn [m_pres]. rewrite HP. reflexivity.
+      + unfold add_block; cbn [m_blocks]. rewrite aset_absent by exact Hnone.
+        rewrite map_app, <- app_assoc. exact ND.
+      + intros c' d' HI. apply HH. right. exact HI.
+  Qed.
+
+  Lemma pb_presences_fresh : forall ps m,
+    NoDup (map fst (m_pres m) ++ map fst ps) ->
+    (forall c t, In (c, t) ps -> validb c = true /\ amem c (m_blocks m) = false) ->
+    pb_presences ps m = Some (mkmsg (m_full m) (m_wl m) (m_blocks m) (m_pres m ++ ps) (m_pending m)).
+  Proof.
+    induction ps as [|[c t] r IH]; intros m ND HV.
+    - cbn [pb_presences]. rewrite app_nil_r. destruct m; reflexivity.
+    - rewrite pb_presences_cons. destruct (HV c t (or_introl eq_refl)) as [Hv Hm]. rewrite Hv.
+      cbn [map fst] in ND.
+      assert (Hnone : aget c (m_pres m) = None).
+      { apply aget_none_notin. apply NoDup_remove_2 in ND. intro HI. apply ND. apply in_or_app. left. exact HI. }
+      unfold add_presence. rewrite Hm.
+      rewrite IH; cbn [m_full m_wl m_blocks m_pres m_pending].
+      + rewrite aset_absent by exact Hnone. rewrite <- app_assoc. reflexivity.
+      + rewrite aset_absent by exact Hnone. rewrite map_app, <- app_assoc. exact ND.
+      + intros c' t' HI. apply (HV c' t'). right. exact HI.
+  Qed.
+End Dec.
+
+(** ---------- round trips ---------- *)
+Section RT.
+  Variable H : prefix -> bytes -> option cid.
+  Variable H0 : bytes -> cid.
+
+  Lemma wfb_facts : forall m, wfb H m = true ->
+    NoDup (map fst (m_wl m)) /\ NoDup (map fst (m_blocks m)) /\ NoDup (map fst (m_pres m)) /\
+    (forall c e, In (c, e) (m_wl m) -> validb c = true) /\
+    (forall c d, In (c, d) (m_blocks m) -> validb c = true /\ H (prefix_of c) d = Some c) /\
+    (forall c t, In (c, t) (m_pres m) -> validb c = true /\ amem c (m_blocks m) = false).
+  Proof.
+    intros m Hwf. unfold wfb in Hwf.
+    repeat (apply andb_true_iff in Hwf; let X := fresh "W" in destruct Hwf as [Hwf X]).
+    rename Hwf into W5.
+    rewrite forallb_forall in W, W1, W2. unfold selfcertb in W0. rewrite forallb_forall in W0.
+    apply nodupb_NoDup in W5. apply nodupb_NoDup in W4. apply nodupb_NoDup in W3.
+    split; [exact W5|]. split; [exact W4|]. split; [exact W3|].
+    split; [|split].
+    - intros c e HI. apply (W2 (c, e) HI).
+    - intros c d HI. split; [apply (W1 (c, d) HI)|].
+      specialize (W0 (c, d) HI). cbn [fst snd] in W0.
+      destruct (H (prefix_of c) d) as [c'|]; [|discriminate]. apply bytes_eqb_eq in W0. congruence.
+    - intros c t HI. specialize (W (c, t) HI). cbn [fst] in W. apply andb_true_iff in W.
+      destruct W as [Wv Wm]. split; [exact Wv|]. apply negb_true_iff in Wm. exact Wm.
+  Qed.
+
+  Theorem v1_roundtrip : forall m pb,
+    wfb H m = true -> pb_perm pb (to_pb_v1 m) ->
+    exists m', from_pb H H0 pb = Some m' /\ msg_equiv m' m.
+  Proof.
+    intros m pb Hwf HP.
+    destruct (wfb_facts m Hwf) as (NDw & NDb & NDp & Vw & Vb & Vp).
+    destruct pb as [wlo bl pl pr pn]. unfold pb_perm, to_pb_v1 in HP.
+    cbn [pb_wl pb_blocks pb_payload pb_pres pb_pending] in HP.
+    destruct wlo as [[es f]|]; [|destruct HP as [[] _]].
+    destruct HP as ([Pes Ef] & Pbl & Ppl & Ppr & Epn). subst f pn.
+    apply Permutation_sym, Permutation_nil in Pbl. subst bl.
+    (* want-list *)
+    assert (Pw : Permutation (m_wl m) (map of_pb es)).
+    { apply Permutation_sym. apply (Permutation_map of_pb) in Pes. rewrite map_map in Pes.
+      rewrite (map_ext _ (fun x => x)) in Pes by apply of_pb_to_pb. rewrite map_id in Pes. exact Pes. }
+    assert (Ekeys : map pe_block es = map fst (map of_pb es)) by (rewrite map_map; reflexivity).
+    assert (Hes : pb_entries es [] = Some (map of_pb es)).
+    { rewrite pb_entries_fresh; [reflexivity | |].
+      - cbn [map app]. rewrite Ekeys. eapply Permutation_NoDup; [apply Permutation_map; exact Pw | exact NDw].
+      - intros e HI. eapply Permutation_in in HI; [|exact Pes].
+        apply in_map_iff in HI. destruct HI as ([c e0] & He & HI). subst e. cbn [ent_to_pb pe_block].
+        apply (Vw c e0 HI). }
+    (* payload *)
+    change (map (fun cd : cid * bytes => (prefix_bytes (prefix_of (fst cd)), snd cd)) (m_blocks m))
+      with (map pay (m_blocks m)) in Ppl.
+    apply Permutation_map_inv in Ppl. destruct Ppl as (bs' & Epl & Pb). subst pl.
+    assert (NDb' : NoDup (map fst bs'))
+      by (eapply Permutation_NoDup; [apply Permutation_map; exact Pb | exact NDb]).
+    (* presences *)
+    apply Permutation_sym in Ppr.
+    assert (NDp' : NoDup (map fst pr))
+      by (eapply Permutation_NoDup; [apply Permutation_map; exact Ppr | exact NDp]).
+    unfold from_pb. cbn [pb_wl pb_blocks pb_payload pb_pres pb_pending]. rewrite Hes.
+    cbn [pb_old_blocks fold_left].
+    rewrite pb_payloads_fresh; cbn [m_full m_wl m_blocks m_pres m_pending map app];
+      [ | reflexivity | exact NDb' | ].
+    2:{ intros c d HI. apply Vb. eapply Permutation_in; [apply Permutation_sym; exact Pb | exact HI]. }
+    rewrite pb_presences_fresh; cbn [m_full m_wl m_blocks m_pres m_pending map app];
+      [ | exact NDp' | ].
+    2:{ intros c t HI. eapply Permutation_in in HI; [|apply Permutation_sym; exact Ppr].
+        destruct (Vp c t HI) as [Hv Hm]. split; [exact Hv|].
+        apply amem_false. apply amem_false in Hm. rewrite <- Hm. symmetry.
+        apply aget_perm; assumption. }
+    eexists. split; [reflexivity|].
+    unfold msg_equiv; cbn [m_full m_wl m_blocks m_pres m_pending].
+    repeat split.
+    - intro k. symmetry. apply aget_perm; assumption.
+    - intro k. symmetry. apply aget_perm; assumption.
+    - intro k. symmetry. apply aget_perm; assumption.
+  Qed.
+End RT.
+
+(** ---------- what the decoding loops preserve / establish ---------- *)
+Section Loops.
+  Variable H : prefix -> bytes -> option cid.
+  Variable H0 : bytes -> cid.
+
+  Definition oldf (l : list (cid * bytes)) (d : bytes) := aset (H0 d) d l.
+
+  Lemma old_blocks_shape : forall ds m,
+    pb_old_blocks H0 ds m =
+    mkmsg (m_full m) (m_wl m) (fold_left oldf ds (m_blocks m))
+          (fold_left (fun p d => adel (H0 d) p) ds (m_pres m)) (m_pending m).
+  Proof.
+    induction ds as [|d r IH]; intro m; cbn [pb_old_blocks fold_left].
+    - destruct m; reflexivity.
+    - unfold pb_old_blocks in IH. rewrite IH. reflexivity.
+  Qed.
+
+  Lemma fold_adel_nil : forall (ds : list bytes), fold_left (fun (p : list (cid * Z)) d => adel (H0 d) p) ds [] = [].
+  Proof. induction ds as [|d r IH]; cbn [fold_left adel]; [reflexivity | exact IH]. Qed.
+
+  Lemma oldf_in : forall ds l c d,
+    In (c, d) (fold_left oldf ds l) -> In (c, d) l \/ (c = H0 d /\ In d ds).
+  Proof.
+    induction ds as [|x r IH]; intros l c d HI; cbn [fold_left] in HI; [left; exact HI|].
+    apply IH in HI. destruct HI as [HI|[He HI]].
+    - unfold oldf in HI. apply in_aset in HI. destruct HI as [HE|HI]; [|left; exact HI].
+      inversion HE; subst. right. split; [reflexivity | left; reflexivity].
+    - right. split; [exact He | right; exact HI].
+  Qed.
+
+  Lemma oldf_keep : forall ds l k,
+    (exists d', aget k l = Some d' /\ H0 d' = k) ->
+    exists d', aget k (fold_left oldf ds l) = Some d' /\ H0 d' = k.
+  Proof.
+    induction ds as [|x r IH]; intros l k HE; cbn [fold_left]; [exact HE|].
+    apply IH. unfold oldf. beq (H0 x) k E.
+    - exists x. subst k. rewrite aget_aset_same. split; reflexivity.
+    - rewrite aget_aset_other by exact E. exact HE.
+  Qed.
+
+  Lemma oldf_has : forall ds l d, In d ds ->
+    exists d', aget (H0 d) (fold_left oldf ds l) = Some d' /\ H0 d' = H0 d.
+  Proof.
+    induction ds as [|x r IH]; intros l d HI; [destruct HI|]. cbn [fold_left].
+    destruct HI as [HE|HI].
+    - subst x. apply oldf_keep. exists d. unfold oldf. rewrite aget_aset_same. split; reflexivity.
+    - apply IH. exact HI.
+  Qed.
+
+  Lemma oldf_mono : forall ds l k, aget k l <> None -> aget k (fold_left oldf ds l) <> None.
+  Proof.
+    induction ds as [|x r IH]; intros l k HN; cbn [fold_left]; [exact HN|].
+    apply IH. unfold oldf. apply aget_aset_mono. exact HN.
+  Qed.
+
+  (** payload loop *)
+  Definition okp (pd : bytes * bytes) : bool :=
+    match prefix_from_bytes (fst pd) with
+    | Some p => match H p (snd pd) with Some _ => true | None => false end
+    | None => false
+    end.
+
+  Lemma payloads_none : forall ps m, pb_payloads H ps m = None <-> forallb okp ps = false.
+  Proof.
+    induction ps as [|[pfx d] r IH]; intro m; cbn [pb_payloads forallb].
+    - split; discriminate.
+    - unfold okp at 1; cbn [fst snd].
+      destruct (prefix_from_bytes pfx) as [p|]; [|split; reflexivity].
+      destruct (H p d) as [c|]; [|split; reflexivity].
+      cbn [andb]. apply IH.
+  Qed.
+
+  Lemma payloads_spec : forall ps m m', pb_payloads H ps m = Some m' ->
+    m_full m' = m_full m /\ m_wl m' = m_wl m /\ m_pending m' = m_pending m /\
+    (forall k, aget k (m_blocks m) <> None -> aget k (m_blocks m') <> None) /\
+    (forall c d, In (c, d) (m_blocks m') ->
+       In (c, d) (m_blocks m) \/
+       exists pfx p, In (pfx, d) ps /\ prefix_from_bytes pfx = Some p /\ H p d = Some c) /\
+    (forall pfx d, In (pfx, d) ps ->
+       exists p c, prefix_from_bytes pfx = Some p /\ H p d = Some c /\ aget c (m_blocks m') <> None).
+  Proof.
+    induction ps as [|[pfx d] r IH]; intros m m'; cbn [pb_payloads].
+    - intro HE. inversion HE; subst m'. repeat split; try reflexivity.
+      + intros k HN; exact HN.
+      + intros c d HI. left. exact HI.
+      + intros pfx d [].
+    - destruct (prefix_from_bytes pfx) as [p|] eqn:Ep; [|discriminate].
+      destruct (H p d) as [c|] eqn:Ec; [|discriminate].
+      intro HE. apply IH in HE. destruct HE as (Ef & Ew & Epn & Hmono & Hin & Hall).
+      unfold add_block in Ef, Ew, Epn, Hmono, Hin; cbn [m_full m_wl m_blocks m_pres m_pending] in *.
+      split; [exact Ef|]. split; [exact Ew|]. split; [exact Epn|]. split; [|split].
+      + intros k HN. apply Hmono. apply aget_aset_mono. exact HN.
+      + intros c' d' HI. apply Hin in HI. destruct HI as [HI|(pfx' & p' & HI & HP & HH)].
+        * apply in_aset in HI. destruct HI as [HE|HI]; [|left; exact HI].
+          inversion HE; subst c' d'. right. exists pfx, p. split; [left; reflexivity|]. split; assumption.
+        * right. exists pfx', p'. split; [right; exact HI|]. split; assumption.
+      + intros pfx' d' [HE|HI].
+        * inversion HE; subst pfx' d'. exists p, c. split; [exact Ep|]. split; [exact Ec|].
+          apply Hmono. rewrite aget_aset_same. discriminate.
+        * apply Hall. exact HI.
+  Qed.
+
+  (** presence loop *)
+  Lemma presences_none : forall ps m,
+    pb_presences ps m = None <-> forallb (fun ct : bytes * Z => validb (fst ct)) ps = false.
+  Proof.
+    induction ps as [|[cb t] r IH]; intro m.
+    - cbn. split; discriminate.
+    - rewrite pb_presences_cons. cbn [forallb fst].
+      destruct (validb cb); cbn [andb]; [apply IH | split; reflexivity].
+  Qed.
+
+  Lemma presences_spec : forall ps m m', pb_presences ps m = Some m' ->
+    m_full m' = m_full m /\ m_wl m' = m_wl m /\ m_blocks m' = m_blocks m /\ m_pending m' = m_pending m /\
+    (forall k, aget k (m_pres m) <> None -> aget k (m_pres m') <> None) /\
+    (forall c t, In (c, t) ps -> aget c (m_pres m') <> None \/ aget c (m_blocks m') <> None).
+  Proof.
+    induction ps as [|[cb t] r IH]; intros m m'.
+    - cbn [pb_presences]. intro HE. inversion HE; subst m'. repeat split; try reflexivity.
+      + intros k HN; exact HN.
+      + intros c t [].
+    - rewrite pb_presences_cons. destruct (validb cb) eqn:Ev; [|discriminate].
+      intro HE. apply IH in HE. destruct HE as (Ef & Ew & Eb & Epn & Hmono & Hall).
+      assert (Efields : m_full (add_presence cb t m) = m_full m /\ m_wl (add_presence cb t m) = m_wl m /\
+                        m_blocks (add_presence cb t m) = m_blocks m /\
+                        m_pending (add_presence cb t m) = m_pending m).
+      { unfold add_presence. destruct (amem cb (m_blocks m)); repeat split; reflexivity. }
+      destruct Efields as (F1 & F2 & F3 & F4).
+      rewrite F1 in Ef. rewrite F2 in Ew. rewrite F3 in Eb. rewrite F4 in Epn.
+      split; [exact Ef|]. split; [exact Ew|]. split; [exact Eb|]. split; [exact Epn|]. split.
+      + intros k HN. apply Hmono. unfold add_presence. destruct (amem cb (m_blocks m)); [exact HN|].
+        cbn [m_pres]. apply aget_aset_mono. exact HN.
+      + intros c t' [HE|HI]; [|apply Hall with t'; exact HI].
+        inversion HE; subst c t'.
+        destruct (amem cb (m_blocks m)) eqn:Em.
+        * right. rewrite Eb. apply amem_true. exact Em.
+        * left. apply Hmono. unfold add_presence. rewrite Em. cbn [m_pres].
+          rewrite aget_aset_same. discriminate.
+  Qed.
+
+  (** entry loop *)
+  Lemma add_entry_get_same : forall c p cn wt s wl,
+    aget c (add_entry c p cn wt s wl) =
+    Some (match aget c wl with Some e => merge_ent e p cn wt s | None => mkent p wt cn s end).
+  Proof. intros. unfold add_entry. destruct (aget c wl); apply aget_aset_same. Qed.
+
+  Lemma add_entry_get_other : forall c k p cn wt s wl, c <> k ->
+    aget k (add_entry c p cn wt s wl) = aget k wl.
+  Proof. intros. unfold add_entry. destruct (aget c wl); apply aget_aset_other; assumption. Qed.
+
+  Lemma add_entry_mono : forall c k p cn wt s wl,
+    aget k wl <> None -> aget k (add_entry c p cn wt s wl) <> None.
+  Proof. intros. unfold add_entry. destruct (aget c wl); apply aget_aset_mono; assumption. Qed.
+
+  Lemma entries_none : forall es acc,
+    pb_entries es acc = None <-> forallb (fun e => validb (pe_block e)) es = false.
+  Proof.
+    induction es as [|e r IH]; intro acc.
+    - cbn. split; discriminate.
+    - rewrite pb_entries_cons. cbn [forallb].
+      destruct (validb (pe_block e)); cbn [andb]; [apply IH | split; reflexivity].
+  Qed.
+
+  Lemma entries_spec : forall es acc wl, pb_entries es acc = Some wl ->
+    (forall k, aget k acc <> None -> aget k wl <> None) /\
+    (forall e, In e es -> aget (pe_block e) wl <> None).
+  Proof.
+    induction es as [|e r IH]; intros acc wl.
+    - cbn [pb_entries]. intro HE. inversion HE; subst wl. split; [intros k HN; exact HN | intros e []].
+    - rewrite pb_entries_cons. destruct (validb (pe_block e)); [|discriminate].
+      intro HE. apply IH in HE. destruct HE as [Hmono Hall]. split.
+      + intros k HN. apply Hmono. apply add_entry_mono. exact HN.
+      + intros e' [HE|HI]; [|apply Hall; exact HI]. subst e'.
+        apply Hmono. rewrite add_entry_get_same. discriminate.
+  Qed.
+End Loops.
+
+(** ---------- v0 round trip, self-certification, reject-or-whole ---------- *)
+Section Top.
+  Variable H : prefix -> bytes -> option cid.
+  Variable H0 : bytes -> cid.
+
+  Theorem v0_roundtrip : forall m pb,
+    wf_v0b m = true -> pb_perm pb (to_pb_v0 m) ->
+    exists m0, from_pb H H0 pb = Some m0 /\
+      m_full m0 = m_full m /\
+      (forall k, aget k (m_wl m0) = aget k (m_wl m)) /\
+      (forall c d, In (c, d) (m_blocks m0) -> c = H0 d /\ In d (map snd (m_blocks m))) /\
+      (forall d, In d (map snd (m_blocks m)) ->
+         exists d', aget (H0 d) (m_blocks m0) = Some d' /\ H0 d' = H0 d).
+  Proof.
+    intros m pb Hwf HP. unfold wf_v0b in Hwf. apply andb_true_iff in Hwf. destruct Hwf as [NDw Vw].
+    apply nodupb_NoDup in NDw. rewrite forallb_forall in Vw.
+    destruct pb as [wlo bl pl pr pn]. unfold pb_perm, to_pb_v0 in HP.
+    cbn [pb_wl pb_blocks pb_payload pb_pres pb_pending] in HP.
+    destruct wlo as [[es f]|]; [|destruct HP as [[] _]].
+    destruct HP as ([Pes Ef] & Pbl & Ppl & Ppr & Epn). subst f pn.
+    apply Permutation_sym, Permutation_nil in Ppl. subst pl.
+    apply Permutation_sym, Permutation_nil in Ppr. subst pr.
+    assert (Pw : Permutation (m_wl m) (map of_pb es)).
+    { apply Permutation_sym. apply (Permutation_map of_pb) in Pes. rewrite map_map in Pes.
+      rewrite (map_ext _ (fun x => x)) in Pes by apply of_pb_to_pb. rewrite map_id in Pes. exact Pes. }
+    assert (Ekeys : map pe_block es = map fst (map of_pb es)) by (rewrite map_map; reflexivity).
+    assert (Hes : pb_entries es [] = Some (map of_pb es)).
+    { rewrite pb_entries_fresh; [reflexivity | |].
+      - cbn [map app]. rewrite Ekeys. eapply Permutation_NoDup; [apply Permutation_map; exact Pw | exact NDw].
+      - intros e HI. eapply Permutation_in in HI; [|exact Pes].
+        apply in_map_iff in HI. destruct HI as ([c e0] & He & HI). subst e. cbn [ent_to_pb pe_block].
+        apply (Vw (c, e0) HI). }
+    unfold from_pb. cbn [pb_wl pb_blocks pb_payload pb_pres pb_pending]. rewrite Hes.
+    rewrite old_blocks_shape. cbn [m_full m_wl m_blocks m_pres m_pending pb_payloads pb_presences].
+    eexists. split; [reflexivity|]. cbn [m_full m_wl m_blocks m_pres m_pending].
+    split; [reflexivity|]. split; [|split].
+    - intro k. symmetry. apply aget_perm; assumption.
+    - intros c d HI. apply oldf_in in HI. destruct HI as [[]|[He HI]]. split; [exact He|].
+      eapply Permutation_in; [exact Pbl | exact HI].
+    - intros d HI. apply oldf_has. eapply Permutation_in; [apply Permutation_sym; exact Pbl | exact HI].
+  Qed.
+
+  (** where a decoded block comes from *)
+  Definition block_src (pb : pbmsg) (c : cid) (d : bytes) : Prop :=
+    (exists pfx p, In (pfx, d) (pb_payload pb) /\ prefix_from_bytes pfx = Some p /\ H p d = Some c) \/
+    (In d (pb_blocks pb) /\ c = H0 d).
+
+  Theorem self_certifying : forall pb m, from_pb H H0 pb = Some m ->
+    forall c d, In (c, d) (m_blocks m) -> block_src pb c d.
+  Proof.
+    intros pb m. unfold from_pb.
+    destruct (pb_entries _ []) as [wl|]; [|discriminate].
+    destruct (pb_payloads H (pb_payload pb) _) as [m2|] eqn:E2; [|discriminate].
+    destruct (pb_presences (pb_pres pb) m2) as [m3|] eqn:E3; [|discriminate].
+    intro HE. inversion HE; subst m. cbn [m_blocks]. intros c d HI.
+    apply presences_spec in E3. destruct E3 as (_ & _ & Eb & _). rewrite Eb in HI.
+    apply payloads_spec in E2. destruct E2 as (_ & _ & _ & _ & Hin & _).
+    apply Hin in HI. destruct HI as [HI|HI].
+    - rewrite old_blocks_shape in HI. cbn [m_blocks] in HI. apply oldf_in in HI.
+      destruct HI as [[]|[He HI]]. right. split; assumption.
+    - left. exact HI.
+  Qed.
+
+  (** with the two laws of go-cid's Prefix.Sum (checked on every oracle table by the
+      harness) this is the boolean form [check_case] evaluates *)
+  Theorem self_certifying_b :
+    (forall p d c, H p d = Some c -> H (prefix_of c) d = Some c) ->
+    (forall d, H (prefix_of (H0 d)) d = Some (H0 d)) ->
+    forall pb m, from_pb H H0 pb = Some m -> selfcertb H m = true.
+  Proof.
+    intros L1 L2 pb m HF. unfold selfcertb. apply forallb_forall. intros [c d] HI. cbn [fst snd].
+    destruct (self_certifying pb m HF c d HI) as [(pfx & p & _ & _ & HH)|[_ He]].
+    - rewrite (L1 p d c HH). apply bytes_eqb_refl.
+    - subst c. rewrite L2. apply bytes_eqb_refl.
+  Qed.
+
+  Theorem reject_iff : forall pb, from_pb H H0 pb = None <-> pb_okb H pb = false.
+  Proof.
+    intro pb. unfold from_pb, pb_okb.
+    set (es := match pb_wl pb with Some (es, _) => es | None => [] end).
+    fold (okp H).
+    destruct (pb_entries es []) as [wl|] eqn:E1.
+    - assert (A : forallb (fun e => validb (pe_block e)) es = true).
+      { destruct (forallb (fun e => validb (pe_block e)) es) eqn:EA; [reflexivity|].
+        apply (entries_none es []) in EA. congruence. }
+      rewrite A. cbn [andb].
+      destruct (pb_payloads H (pb_payload pb) _) as [m2|] eqn:E2.
+      + assert (B : forallb (okp H) (pb_payload pb) = true).
+        { destruct (forallb (okp H) (pb_payload pb)) eqn:EB; [reflexivity|].
+          apply (payloads_none H) with (m := pb_old_blocks H0 (pb_blocks pb)
+            (mkmsg match pb_wl pb with Some (_, f) => f | None => false end wl [] [] 0)) in EB. congruence. }
+        rewrite B. cbn [andb].
+        destruct (pb_presences (pb_pres pb) m2) as [m3|] eqn:E3.
+        * split; [discriminate|]. intro C. apply (presences_none (pb_pres pb) m2) in C. congruence.
+        * split; [|reflexivity]. intros _. apply (presences_none (pb_pres pb) m2). exact E3.
+      + apply payloads_none in E2. rewrite E2. cbn [andb]. split; reflexivity.
+    - apply entries_none in E1. rewrite E1. cbn [andb]. split; reflexivity.
+  Qed.
+
+  Theorem whole : forall pb m, from_pb H H0 pb = Some m -> wholeb H H0 pb m = true.
+  Proof.
+    intros pb m. unfold from_pb.
+    set (es := match pb_wl pb with Some (es, _) => es | None => [] end).
+    set (f := match pb_wl pb with Some (_, f) => f | None => false end).
+    destruct (pb_entries es []) as [wl|] eqn:E1; [|discriminate].
+    destruct (pb_payloads H (pb_payload pb) _) as [m2|] eqn:E2; [|discriminate].
+    destruct (pb_presences (pb_pres pb) m2) as [m3|] eqn:E3; [|discriminate].
+    intro HE. inversion HE; subst m. clear HE.
+    apply entries_spec in E1. destruct E1 as [_ Hes].
+    apply payloads_spec in E2. destruct E2 as (Ef2 & Ew2 & _ & Hmono2 & _ & Hall2).
+    rewrite old_blocks_shape in Ef2, Ew2, Hmono2. cbn [m_full m_wl m_blocks] in Ef2, Ew2, Hmono2.
+    apply presences_spec in E3. destruct E3 as (Ef3 & Ew3 & Eb3 & _ & _ & Hall3).
+    unfold wholeb. fold es. fold f. cbn [m_full m_wl m_blocks m_pres m_pending].
+    repeat (apply andb_true_iff; split).
+    - rewrite Ef3, Ef2. apply eqb_reflx.
+    - apply Z.eqb_refl.
+    - apply forallb_forall. intros e HI. apply amem_true. rewrite Ew3, Ew2. apply Hes. exact HI.
+    - apply forallb_forall. intros d HI. apply amem_true. rewrite Eb3. apply Hmono2.
+      destruct (oldf_has H0 (pb_blocks pb) [] d HI) as (d' & Hg & _). rewrite Hg. discriminate.
+    - apply forallb_forall. intros [pfx d] HI. cbn [fst snd].
+      destruct (Hall2 pfx d HI) as (p & c & Hp & Hc & Hg). rewrite Hp, Hc. apply amem_true.
+      rewrite Eb3. exact Hg.
+    - apply forallb_forall. intros [c t] HI. cbn [fst]. apply orb_true_iff.
+      destruct (Hall3 c t HI) as [Hg|Hg]; [left | right]; apply amem_true; exact Hg.
+  Qed.
+
+  (** every individually malformed item makes the whole message be rejected *)
+  Corollary reject_malformed_entry : forall pb es f e,
+    pb_wl pb = Some (es, f) -> In e es -> validb (pe_block e) = false -> from_pb H H0 pb = None.
+  Proof.
+    intros pb es f e Hw HI Hv. apply reject_iff. unfold pb_okb. rewrite Hw.
+    assert (A : forallb (fun e => validb (pe_block e)) es = false).
+    { destruct (forallb (fun e => validb (pe_block e)) es) eqn:EA; [|reflexivity].
+      rewrite forallb_forall in EA. rewrite (EA e HI) in Hv. discriminate. }
+    rewrite A. reflexivity.
+  Qed.
+End Top.
+
+(** ---------- merge rules of addEntry ---------- *)
+Lemma merge_cancel_sticky : forall e p c wt s, e_cancel (merge_ent e p c wt s) = c || e_cancel e.
+Proof. intros e p [] wt s; reflexivity. Qed.
+Lemma merge_sdh_sticky : forall e p c wt s, e_sdh (merge_ent e p c wt s) = s || e_sdh e.
+Proof. intros e p c wt []; reflexivity. Qed.
+Lemma merge_block_stays : forall e p c wt s, e_wt e = WBlock -> e_wt (merge_ent e p c wt s) = WBlock.
+Proof.
+  intros e p c wt s HE. cbn [merge_ent e_wt]. rewrite HE. unfold WBlock, WHave. cbn [Z.eqb].
+  rewrite andb_false_r. reflexivity.
+Qed.
+Lemma merge_upgrade : forall e p c s, e_wt e = WHave -> e_wt (merge_ent e p c WBlock s) = WBlock.
+Proof. intros e p c s HE. cbn [merge_ent e_wt]. rewrite HE. reflexivity. Qed.
+Lemma merge_no_downgrade : forall e p c wt s, wt <> WBlock -> e_wt (merge_ent e p c wt s) = e_wt e.
+Proof.
+  intros e p c wt s HN. cbn [merge_ent e_wt]. apply Z.eqb_neq in HN. rewrite HN. reflexivity.
+Qed.
+Lemma merge_prio : forall e p c wt s,
+  e_prio (merge_ent e p c wt s) = if e_wt e =? wt then p else e_prio e.
+Proof. reflexivity. Qed.
+
+(** the want-list after any wire/API sequence decomposes per CID: the entry of [c]
+    is the sequential merge of exactly the items that name [c] *)
+Definition item := (cid * (Z * bool * Z * bool))%type.     (* cid, priority, cancel, type, sendDontHave *)
+Definition add_item (wl : list (cid * ent)) (it : item) :=
+  let '(c, (p, cn, wt, s)) := it in add_entry c p cn wt s wl.
+Definition merge_item (o : option ent) (it : item) : option ent :=
+  let '(_, (p, cn, wt, s)) := it in
+  Some (match o with Some e => merge_ent e p cn wt s | None => mkent p wt cn s end).
+
+Lemma merge_per_cid : forall its wl c,
+  aget c (fold_left add_item its wl) =
+  fold_left merge_item (filter (fun it : item => bytes_eqb (fst it) c) its) (aget c wl).
+Proof.
+  induction its as [|[c0 [[[p cn] wt] s]] r IH]; intros wl c; cbn [fold_left filter fst]; [reflexivity|].
+  rewrite IH. cbn [add_item]. beq c0 c E.
+  - subst c0. cbn [fold_left merge_item]. rewrite add_entry_get_same. reflexivity.
+  - rewrite add_entry_get_other by exact E. reflexivity.
+Qed.
+
+Definition it_cancel (it : item) : bool := let '(_, (_, cn, _, _)) := it in cn.
+Definition it_sdh (it : item) : bool := let '(_, (_, _, _, s)) := it in s.
+Definition it_wt (it : item) : Z := let '(_, (_, _, wt, _)) := it in wt.
+
+Lemma merge_fold_flags : forall its e,
+  match fold_left merge_item its (Some e) with
+  | Some e' =>
+      e_cancel e' = e_cancel e || existsb it_cancel its /\
+      e_sdh e' = e_sdh e || existsb it_sdh its /\
+      e_wt e' = (if (e_wt e =? WHave) && existsb (fun it => it_wt it =? WBlock) its then WBlock else e_wt e)
+  | None => False
   end.
+Proof.
+  induction its as [|[c0 [[[p cn] wt] s]] r IH]; intro e; cbn [fold_left merge_item existsb].
+  - rewrite !orb_false_r, andb_false_r. repeat split; reflexivity.
+  - specialize (IH (merge_ent e p cn wt s)).
+    destruct (fold_left merge_item r (Some (merge_ent e p cn wt s))) as [e'|]; [|exact IH].
+    destruct IH as (Hc & Hs & Hw). rewrite Hc, Hs, Hw.
+    rewrite merge_cancel_sticky, merge_sdh_sticky. cbn [it_cancel it_sdh it_wt].
+    split; [destruct cn, (e_cancel e); reflexivity|].
+    split; [destruct s, (e_sdh e); reflexivity|].
+    cbn [merge_ent e_wt]. unfold WBlock, WHave.
+    destruct (wt =? 0) eqn:E1; destruct (e_wt e =? 1) eqn:E2; cbn [andb orb].
+    + apply Z.eqb_eq in E1. subst wt. cbn [Z.eqb andb]. reflexivity.
+    + destruct (existsb _ r); rewrite ?andb_false_r, ?andb_true_r, ?E2; reflexivity.
+    + rewrite E2. cbn [andb]. reflexivity.
+    + rewrite E2. cbn [andb]. reflexivity.
+Qed.
 
 Lemma merge_idem : forall e p c wt s,
-  let e1 := merge_ent e p c wt s in merge_ent (merge_ent e1 p c wt s) p c wt s = merge_ent e1 p c wt s.
+  let e1 := merge_ent e p c wt s in merge_ent e1 p c wt s = merge_ent (merge_ent e1 p c wt s) p c wt s.
 Proof.
   intros [ep ew ec es] p c wt s. cbv zeta. unfold merge_ent, WBlock, WHave; cbn [e_prio e_wt e_cancel e_sdh].
-  destruct c, s, ec, es; zb; cbn [andb] in *; zb; cbn [andb] in *; try reflexivity; try (exfalso; lia); f_equal; try lia.
+  destruct c, s, ec, es;
+    repeat match goal with |- context [?a =? ?b] => let E := fresh "E" in destruct (a =? b) eqn:E end;
+    cbn [andb] in *;
+    repeat match goal with
+    | HH : (_ =? _) = true |- _ => apply Z.eqb_eq in HH
+    | HH : (_ =? _) = false |- _ => apply Z.eqb_neq in HH
+    end;
+    try reflexivity; try (exfalso; lia); f_equal; try lia.
 Qed.
+
+(** ---------- every message built through the API is well-formed ---------- *)
+Section KeysP.
+  Context {V : Type}.
+  Implicit Types (l : list (bytes * V)).
+
+  Lemma key_in_aset : forall l k v x, In x (map fst (aset k v l)) -> x = k \/ In x (map fst l).
+  Proof.
+    intros l k v x HI. apply in_map_iff in HI. destruct HI as ([k1 v1] & HE & HI). cbn [fst] in HE. subst k1.
+    apply in_aset in HI. destruct HI as [HE|HI].
+    - left. congruence.
+    - right. apply in_map_iff. exists (x, v1). split; [reflexivity | exact HI].
+  Qed.
+
+  Lemma NoDup_aset : forall l k v, NoDup (map fst l) -> NoDup (map fst (aset k v l)).
+  Proof.
+    induction l as [|[k0 v0] r IH]; intros k v ND; cbn [aset].
+    - cbn. constructor; [intros [] | constructor].
+    - cbn [map fst] in ND. inversion ND as [|? ? HNI ND']; subst.
+      beq k k0 E; cbn [map fst].
+      + subst k0. constructor; assumption.
+      + constructor; [|apply IH; exact ND'].
+        intro HI. apply key_in_aset in HI. destruct HI as [HE|HI]; [congruence | contradiction].
+  Qed.
+
+  Lemma in_adel : forall l k x, In x (adel k l) -> In x l /\ fst x <> k.
+  Proof.
+    induction l as [|[k0 v0] r IH]; intros k x; cbn [adel]; [intros []|].
+    beq k k0 E.
+    - intro HI. apply IH in HI. destruct HI as [HI HN]. split; [right; exact HI | exact HN].
+    - cbn [In]. intros [HE|HI].
+      + subst x. split; [left; reflexivity | cbn [fst]; congruence].
+      + apply IH in HI. destruct HI as [HI HN]. split; [right; exact HI | exact HN].
+  Qed.
+
+  Lemma NoDup_adel : forall l k, NoDup (map fst l) -> NoDup (map fst (adel k l)).
+  Proof.
+    induction l as [|[k0 v0] r IH]; intros k ND; cbn [adel]; [constructor|].
+    cbn [map fst] in ND. inversion ND as [|? ? HNI ND']; subst.
+    destruct (bytes_eqb k k0); [apply IH; exact ND'|].
+    cbn [map fst]. constructor; [|apply IH; exact ND'].
+    intro HI. apply in_map_iff in HI. destruct HI as ([k1 v1] & HE & HI). cbn [fst] in HE. subst k1.
+    apply in_adel in HI. destruct HI as [HI _]. apply HNI. apply in_map_iff. exists (k0, v1). split; [reflexivity | exact HI].
+  Qed.
+End KeysP.
+
+Section Api.
+  Variable H : prefix -> bytes -> option cid.
+
+  Definition wfP (m : msg) : Prop :=
+    NoDup (map fst (m_wl m)) /\ NoDup (map fst (m_blocks m)) /\ NoDup (map fst (m_pres m)) /\
+    (forall c e, In (c, e) (m_wl m) -> validb c = true) /\
+    (forall c d, In (c, d) (m_blocks m) -> validb c = true /\ H (prefix_of c) d = Some c) /\
+    (forall c t, In (c, t) (m_pres m) -> validb c = true /\ amem c (m_blocks m) = false).
+
+  Lemma wfP_wfb : forall m, wfP m -> wfb H m = true.
+  Proof.
+    intros m (NDw & NDb & NDp & Vw & Vb & Vp). unfold wfb.
+    repeat (apply andb_true_iff; split).
+    - apply nodupb_NoDup. exact NDw.
+    - apply nodupb_NoDup. exact NDb.
+    - apply nodupb_NoDup. exact NDp.
+    - apply forallb_forall. intros [c e] HI. apply (Vw c e HI).
+    - apply forallb_forall. intros [c d] HI. apply (Vb c d HI).
+    - unfold selfcertb. apply forallb_forall. intros [c d] HI. cbn [fst snd].
+      destruct (Vb c d HI) as [_ HH]. rewrite HH. apply bytes_eqb_refl.
+    - apply forallb_forall. intros [c t] HI. cbn [fst]. destruct (Vp c t HI) as [Hv Hm].
+      rewrite Hv, Hm. reflexivity.
+  Qed.
+
+  Lemma wfP_set_wl_aset : forall m c e, wfP m -> validb c = true -> wfP (set_wl m (aset c e (m_wl m))).
+  Proof.
+    intros m c e (NDw & NDb & NDp & Vw & Vb & Vp) Hv. unfold wfP, set_wl; cbn [m_wl m_blocks m_pres].
+    split; [apply NoDup_aset; exact NDw|]. split; [exact NDb|]. split; [exact NDp|].
+    split; [|split; [exact Vb | exact Vp]].
+    intros c' e' HI. apply in_aset in HI. destruct HI as [HE|HI]; [congruence | apply (Vw c' e' HI)].
+  Qed.
+
+  Lemma step_wfP : forall m o, wfP m -> op_okb H o = true -> wfP (step m o).
+  Proof.
+    intros m o Hwf Hok. destruct o as [c p wt sdh|c|c|c d|c t|n|f]; cbn [step op_okb] in *.
+    - unfold add_entry. destruct (aget c (m_wl m)); apply wfP_set_wl_aset; assumption.
+    - unfold add_entry. destruct (aget c (m_wl m)); apply wfP_set_wl_aset; assumption.
+    - destruct Hwf as (NDw & NDb & NDp & Vw & Vb & Vp). unfold wfP, set_wl; cbn [m_wl m_blocks m_pres].
+      split; [apply NoDup_adel; exact NDw|]. split; [exact NDb|]. split; [exact NDp|].
+      split; [|split; [exact Vb | exact Vp]].
+      intros c' e' HI. apply in_adel in HI. destruct HI as [HI _]. apply (Vw c' e' HI).
+    - destruct Hwf as (NDw & NDb & NDp & Vw & Vb & Vp).
+      apply andb_true_iff in Hok. destruct Hok as [Hv Hh].
+      destruct (H (prefix_of c) d) as [c'|] eqn:EH; [|discriminate]. apply bytes_eqb_eq in Hh. subst c'.
+      unfold wfP, add_block; cbn [m_wl m_blocks m_pres].
+      split; [exact NDw|]. split; [apply NoDup_aset; exact NDb|]. split; [apply NoDup_adel; exact NDp|].
+      split; [exact Vw|]. split.
+      + intros c' d' HI. apply in_aset in HI. destruct HI as [HE|HI]; [|apply (Vb c' d' HI)].
+        inversion HE; subst c' d'. split; assumption.
+      + intros c' t' HI. apply in_adel in HI. destruct HI as [HI HN]. cbn [fst] in HN.
+        destruct (Vp c' t' HI) as [Hv' Hm']. split; [exact Hv'|].
+        apply amem_false. apply amem_false in Hm'. rewrite aget_aset_other by congruence. exact Hm'.
+    - destruct Hwf as (NDw & NDb & NDp & Vw & Vb & Vp). unfold add_presence.
+      destruct (amem c (m_blocks m)) eqn:Em; [exact (conj NDw (conj NDb (conj NDp (conj Vw (conj Vb Vp)))))|].
+      unfold wfP; cbn [m_wl m_blocks m_pres].
+      split; [exact NDw|]. split; [exact NDb|]. split; [apply NoDup_aset; exact NDp|].
+      split; [exact Vw|]. split; [exact Vb|].
+      intros c' t' HI. apply in_aset in HI. destruct HI as [HE|HI]; [|apply (Vp c' t' HI)].
+      inversion HE; subst c' t'. split; assumption.
+    - exact Hwf.
+    - unfold wfP, empty; cbn [m_wl m_blocks m_pres map].
+      split; [constructor|]. split; [constructor|]. split; [constructor|].
+      split; [intros ? ? []|]. split; intros ? ? [].
+  Qed.
+
+  Theorem api_wf : forall ops full, forallb (op_okb H) ops = true -> wfb H (run full ops) = true.
+  Proof.
+    intros ops full Hok. apply wfP_wfb. unfold run.
+    assert (W0 : wfP (empty full)).
+    { unfold wfP, empty; cbn [m_wl m_blocks m_pres map].
+      split; [constructor|]. split; [constructor|]. split; [constructor|].
+      split; [intros ? ? []|]. split; intros ? ? []. }
+    revert W0 Hok. generalize (empty full). induction ops as [|o r IH]; intros m W Hok; cbn [fold_left]; [exact W|].
+    cbn [forallb] in Hok. apply andb_true_iff in Hok. destruct Hok as [Ho Hr].
+    apply IH; [apply step_wfP; assumption | exact Hr].
+  Qed.
+End Api.
